@@ -279,6 +279,9 @@ class XMLResourceLoader:
 
         except SyntaxError as err:
             raise XMLResourceParseError("invalid XML syntax: {}".format(err)) from err
+        except (LookupError, ValueError) as err:
+            # an encoding declaration that the parser doesn't know or doesn't support
+            raise XMLResourceParseError("invalid XML data: {}".format(err)) from err
         finally:
             self._lazy_lock.release()
 
@@ -330,6 +333,9 @@ class XMLResourceLoader:
                         end_ns = False
         except SyntaxError as err:
             raise XMLResourceParseError("invalid XML syntax: {}".format(err)) from err
+        except (LookupError, ValueError) as err:
+            # an encoding declaration that the parser doesn't know or doesn't support
+            raise XMLResourceParseError("invalid XML data: {}".format(err)) from err
 
     def _clear(self, elem: ElementType,
                ancestors: Optional[list[ElementType]] = None) -> None:
